@@ -123,6 +123,11 @@ var (
 	stepCount  int
 	stepBudget int
 	stepSite   string
+	// loopCount counts the iterations of every loop in plenccodec and the root
+	// package (autoyield puts "auto.loop" at the top of each loop body): a loop
+	// without a hand-placed hook that never ends is stopped by loopBudget.
+	loopCount  int
+	loopBudget int
 )
 
 // buildSites are the yield points of codec construction; they are not decode
@@ -133,6 +138,15 @@ var notDecodeSteps = map[string]bool{"reg.load": true, "reg.store": true, "reg.s
 	"map.iter1": true, "map.iterN": true, "map.iterEnd": true}
 
 func stepHook(site string) {
+	if len(site) == 9 && site == "auto.loop" {
+		loopCount++
+		if loopCount > loopBudget && loopBudget > 0 {
+			stepSite = site
+			loopBudget, stepBudget = 0, 0
+			panic(stepBudgetExceeded{loopCount})
+		}
+		return
+	}
 	if notDecodeSteps[site] || strings.HasPrefix(site, "auto.") {
 		return
 	}
@@ -303,6 +317,10 @@ func present(input, prev []byte, how string) []byte {
 func (s *StoreSim) decodeOnce(p world.API, rd *storeReader, buf []byte, exact bool) (res decodeResult) {
 	stepCount = 0
 	stepBudget = 64 + 16*len(buf)
+	// loop iterations: legitimately proportional to the input or to what the
+	// (long-lived, re-used) readers already hold, never millions per input byte
+	loopCount = 0
+	loopBudget = 4000000 + 4096*len(buf)
 	var a0 uint64
 	if exact {
 		a0 = exactAllocs()
@@ -339,7 +357,7 @@ func (s *StoreSim) decodeOnce(p world.API, rd *storeReader, buf []byte, exact bo
 		}
 		res.val = out.Elem()
 	}()
-	stepBudget = 0
+	stepBudget, loopBudget = 0, 0
 	res.steps = stepCount
 	if exact {
 		res.alloc = exactAllocs() - a0
